@@ -38,7 +38,7 @@ func ParseDateTime(value string) (DateTime, error) {
 	var err error
 	value = strings.TrimPrefix(value, "@")
 	for _, l := range dateTimeLayouts {
-		if t, err = time.Parse(l, value); err == nil {
+		if t, err = parseInFixedZone(l, value); err == nil {
 			t, fl := normalizeFraction(t, layout(l))
 			return DateTime{t, fl}, nil
 		}
@@ -221,7 +221,7 @@ func (dt DateTime) Add(input Quantity) (DateTime, error) {
 
 	// Reformat to truncate DateTime to initial precision, rounding down to
 	// highest precision value.
-	result, err = time.Parse(string(dt.l), result.Format(string(dt.l)))
+	result, err = parseInFixedZone(string(dt.l), result.Format(string(dt.l)))
 	if err != nil {
 		return DateTime{}, err
 	}
